@@ -27,6 +27,47 @@ build() {
   return 0
 }
 
+# Where the harness looks for the repository (the path dependency in sim/Cargo.toml).
+repo_path() { sed -n 's/^ckc-rs *= *{ *path *= *"\([^"]*\)".*/\1/p' "$SIM/Cargo.toml" | head -n1; }
+
+# Does the non-test source use atomics? (Only then is there anything for a thread scheduler to interleave.)
+has_atomics() {
+  local r; r="$(repo_path)"
+  awk 'FNR==1{t=0} /#\[cfg\(test\)\]/{t=1} !t{print}' "$r"/src/*.rs "$r"/src/*/*.rs 2>/dev/null | grep -q 'sync::atomic'
+}
+
+# Shadow build for the concurrent phase (DESIGN 10.13): a copy of the repository in which
+# core::sync::atomic is shuttle::sync::atomic, and the simulator built against it with --features conc.
+CONC="$SIM/target/conc"
+CONCBIN="$CONC/sim/target/release/ckc-sim"
+conc_build() {
+  local r; r="$(repo_path)"
+  mkdir -p "$CONC/ckc-rs" "$CONC/sim/.cargo" || return 1
+  rsync -a --delete --exclude target --exclude .git "$r"/ "$CONC/ckc-rs/" || return 1
+  find "$CONC/ckc-rs/src" -name '*.rs' -print0 | xargs -0 sed -i 's/core::sync::atomic/shuttle::sync::atomic/g; s/core::hint::spin_loop/shuttle::hint::spin_loop/g'
+  grep -q '^shuttle' "$CONC/ckc-rs/Cargo.toml" || sed -i 's/^\[dependencies\]$/[dependencies]\nshuttle = "0.9.3"/' "$CONC/ckc-rs/Cargo.toml"
+  rsync -a --delete "$SIM/src/" "$CONC/sim/src/" || return 1
+  cat > "$CONC/sim/Cargo.toml" <<'TOML'
+[package]
+name = "ckc-sim"
+version = "0.1.0"
+edition = "2021"
+publish = false
+[workspace]
+[features]
+conc = []
+[dependencies]
+ckc-rs = { path = "../ckc-rs" }
+shuttle = "0.9.3"
+[profile.release]
+panic = "unwind"
+debug = false
+TOML
+  printf '[net]\noffline = true\n' > "$CONC/sim/.cargo/config.toml"
+  cp "$SIM/conc.Cargo.lock" "$CONC/sim/Cargo.lock" || return 1
+  (cd "$CONC/sim" && cargo build --offline --quiet --release --features conc) >"$SIM/target/conc-build.log" 2>&1
+}
+
 case "${1:-}" in
   setup)
     build || exit 2
@@ -38,6 +79,32 @@ case "${1:-}" in
   replay)
     [ $# -ge 2 ] || { echo "usage: check.sh replay <file>" >&2; exit 2; }
     build || exit 2
+    mode="$(jq -r '.mode // "history"' "$2" 2>/dev/null)"
+    if [ "$mode" = "shuttle-schedule" ] || [ "$mode" = "shuttle-lane" ]; then
+      # a concurrent-phase replay: needs the shadow build of the current tree
+      prop="$(jq -r '.property_id' "$2")"
+      if ! has_atomics; then echo "REPLAY-RESULT no-violation (the current tree has no atomics: nothing to schedule)"; exit 0; fi
+      conc_build || { echo "HARNESS-ERROR: shadow build failed (log: $SIM/target/conc-build.log)" >&2; exit 2; }
+      if [ "$mode" = "shuttle-schedule" ]; then
+        "$CONCBIN" conc-replay --prop "$prop" --schedule "$(jq -r '.schedule_file' "$2")" | tee "$SIM/target/run/replay-out.txt"; rc=${PIPESTATUS[0]}
+        grep -q "REPLAY-RESULT class=$(jq -r '.expected.class' "$2") " "$SIM/target/run/replay-out.txt" && echo "reproduces the recorded violation exactly (class; the schedule is shuttle's): yes"
+      else
+        tmp="$SIM/target/run/replay-lane.json"; mkdir -p "$SIM/target/run"
+        "$CONCBIN" conc-lane --prop "$prop" --seed "$(jq -r '.verif_seed' "$2")" --lane "$(jq -r '.lane' "$2")" --iterations "$(jq -r '.iterations' "$2")" --dir "$SIM/target/run/replay-sched" --out "$tmp" >/dev/null 2>&1
+        if [ "$(jq -r '.failed' "$tmp")" = true ]; then
+          echo "REPLAY-RESULT class=$(jq -r '.violation.class' "$tmp") step=$(jq -r '.violation.step' "$tmp") digest=0x0"; jq '.violation' "$tmp"; rc=1
+          [ "$(jq -r '.violation.class' "$tmp")" = "$(jq -r '.expected.class' "$2")" ] && echo "reproduces the recorded violation exactly (class; the whole lane was re-run from its seed): yes"
+        else echo "REPLAY-RESULT no-violation"; rc=0; fi
+      fi
+      if [ $rc -eq 1 ]; then
+        want="$(jq -r '.expected.class' "$2")"
+        echo "VIOLATION property=$prop replay=$2" > "$SIM/target/run/replay-vline.txt"
+        # the lines above carry the class that failed this time
+        echo "expected class: $want"
+        cat "$SIM/target/run/replay-vline.txt"
+      fi
+      exit $rc
+    fi
     "$FAST" replay "$2"
     rc=$?
     if [ $rc -le 1 ] && [ -x "$CHK" ]; then
@@ -53,7 +120,20 @@ case "${1:-}" in
     case "$tier" in quick|thorough) ;; *) echo "usage: check.sh <C15|C19> <quick|thorough>" >&2; exit 2;; esac
     "$ROOT/scripts/premise_audit.sh" || true
     build || exit 2
-    "$FAST" check --prop "$prop" --tier "$tier" --root "$ROOT" --other-bin "$CHK"
+    rm -f "$ROOT/replays/$prop-"* 2>/dev/null   # replay files of earlier runs of this property would only mislead
+    concargs=()
+    if has_atomics; then
+      # the tree has process-wide atomics: put them behind shuttle's scheduler and explore callers' interleavings
+      rep="$SIM/target/run/$prop-$tier-conc.json"; mkdir -p "$SIM/target/run"; rm -f "$rep"
+      if conc_build; then
+        iters=3000; [ "$tier" = thorough ] && iters=60000
+        "$CONCBIN" conc --prop "$prop" --root "$ROOT" --iterations "$iters" --out "$rep" >/dev/null 2>"$SIM/target/conc-run.log"
+        [ -f "$rep" ] && concargs=(--conc-report "$rep")
+      else
+        echo "NOTE: concurrent phase skipped: the shadow build with shuttle atomics failed (log: $SIM/target/conc-build.log)"
+      fi
+    fi
+    "$FAST" check --prop "$prop" --tier "$tier" --root "$ROOT" --other-bin "$CHK" "${concargs[@]}"
     exit $?
     ;;
   *)
